@@ -89,7 +89,10 @@ def gen_boundary(rng):
         w = rng.choice(PYNAMES)
         form = rng.choice(['foo(%v) :- bar(%v).\nbar(a).', 'foo(%v, %w) :- %v = %w.', 'foo(%v) :- %w = [], %v = %w.',
                            'foo([%v|%w]) :- bar(%w).\nbar([]).', 'foo(%v) :- findall(%w, bar(%w), %v).\nbar(1).',
-                           'foo(%v) :- \\+ bar(%v), (bar(%w) -> %v = %w ; true).\nbar(zz).', 'foo(%v, %v, %w).'])
+                           'foo(%v) :- \\+ bar(%v), (bar(%w) -> %v = %w ; true).\nbar(zz).', 'foo(%v, %v, %w).',
+                           # every syntactic position a variable can stand in: list tail, nested tail, goal in a variable ...
+                           'q([H|%w], []).', 'foo([a,b|%v]).', 'foo(X) :- X = [1|%w], %w = [].', 'foo(f(g([%v|%w]))).', 'foo(%v) :- call(%v).',
+                           'foo(%v, L) :- L = [%v, [%v|%w]].'])
         return form.replace('%v', v).replace('%w', w), k
     if k == 'kwpred':
         n = rng.choice(KEYWORDS)
